@@ -247,6 +247,41 @@ def nest_doc(depth: int, via_array: bool) -> dict:
     return {"openapi": "3.0.3", "info": {"title": "N", "version": "1"}, "paths": {}, "components": {"schemas": s}}
 
 
+FAULTY_NODES = {
+    "required_true_on_property": {"type": "object", "properties": {"name": {"type": "string", "required": True}, "n": {"type": "integer"}}},
+    "properties_is_a_list": {"type": "object", "properties": [{"name": "x"}]},
+    "items_is_a_string": {"type": "array", "items": "string"},
+    "allOf_member_is_a_string": {"allOf": ["Base", {"type": "object", "properties": {"q": {"type": "string"}}}]},
+    "enum_is_a_mapping": {"type": "string", "enum": {"a": 1}},
+    "type_is_a_mapping": {"type": {"oneOf": ["string"]}, "properties": {"p": {"type": "string"}}},
+}
+
+
+def ops_doc(faulty: str, position: str, where: int, nops: int) -> dict:
+    """Operations whose request / response / parameter schemas are written INLINE (each one a top-level parse of its own,
+    under a name derived from the operation). One of them carries a malformed node that makes parsing raise; the loader
+    skips that operation and keeps using the same parsing context for the operations that follow."""
+    good = lambda i: {"type": "object", "properties": {"options": {"type": "object", "properties": {"layout": {"type": "object", "properties": {  # noqa
+        "cols": {"type": "integer"}}}, "tag": {"type": "string"}}}, "id": {"type": "integer"}, "peer": {"$ref": "#/components/schemas/Base"}}}
+    paths = {}
+    for i in range(nops):
+        bad = FAULTY_NODES[faulty] if i == where else None
+        nest = (lambda n: {"type": "object", "properties": {"outer": {"type": "object", "properties": {"inner": n}}, "k": {"type": "integer"}}})
+        op: dict[str, Any] = {"operationId": f"create_export{i}" if i % 2 else f"createExport{i}", "tags": ["ops"],
+                              "responses": {"200": {"description": "ok", "content": {"application/json": {"schema": good(i)}}}}}
+        op["requestBody"] = {"required": True, "content": {"application/json": {"schema": good(i)}}}
+        if bad is not None:
+            if position == "request":
+                op["requestBody"]["content"]["application/json"]["schema"] = nest(bad)
+            elif position == "response":
+                op["responses"]["200"]["content"]["application/json"]["schema"] = nest(bad)
+            else:
+                op["parameters"] = [{"name": "filter", "in": "query", "schema": nest(bad)}]
+        paths[f"/op{i}/exports"] = {"post": op}
+    return {"openapi": "3.0.3", "info": {"title": "O", "version": "1"}, "paths": paths,
+            "components": {"schemas": {"Base": {"type": "object", "properties": {"b": {"type": "string"}, "again": {"$ref": "#/components/schemas/Base"}}}}}}
+
+
 def run_doc(ctx: Ctx, mon: Mon, ldr, doc: dict, desc: dict, nontrivial: bool, feats: list[str]) -> None:
     rec = ctx.rec
     mon.reset()
@@ -254,7 +289,11 @@ def run_doc(ctx: Ctx, mon: Mon, ldr, doc: dict, desc: dict, nontrivial: bool, fe
     outcome = "ok"
     rec0 = mon.recursion_errors
     try:
-        ldr.load_ir_from_spec(doc)
+        import warnings as _w
+        with _w.catch_warnings(record=True) as wlist:
+            _w.simplefilter("always")
+            ldr.load_ir_from_spec(doc)
+        desc["_warnings"] = [str(x.message)[:80] for x in wlist]
     except StepBudget:
         outcome = "step_budget"
         mon.problem("termination:step_budget_exceeded", f"more than {mon.budget} enter events")
@@ -267,10 +306,24 @@ def run_doc(ctx: Ctx, mon: Mon, ldr, doc: dict, desc: dict, nontrivial: bool, fe
         rec.seen("load_exceptions", f"{type(e).__name__}: {str(e)[:80]}")
         if "was not parsed" in str(e):
             mon.problem("final:declared_name_missing", str(e)[:200])
+    if desc.get("kind") == "operations" and mon.final_ctx is not None:
+        # the whole document has been loaded: every operation-level inline schema was a top-level parse of its own
+        u = mon.final_ctx.unified_cycle_context
+        rec.count("rest_state_checks_after_operations")
+        import pyopenapi_gen.core.parsing.unified_cycle_detection as ucd
+        if u.recursion_depth != 0 or mon.shadow != 0:
+            mon.problem("rest:depth_nonzero", f"after the operations were parsed: tracker depth {u.recursion_depth}, shadow {mon.shadow}")
+        if u.schema_stack or mon.stack:
+            mon.problem("rest:stack_nonempty", f"after the operations were parsed: stack {u.schema_stack} shadow {mon.stack}")
+        inprog = [k for k, v in u.schema_states.items() if v == ucd.SchemaState.IN_PROGRESS]
+        if inprog:
+            mon.problem("rest:in_progress_left", f"after the operations were parsed: {inprog}")
+        rec.count("operations_skipped_by_loader", sum(1 for w in desc.get("_warnings", []) if "Skipping operation" in w))
     if mon.recursion_errors > rec0:
         mon.problem("termination:RecursionError_raised_inside_load", f"{mon.recursion_errors - rec0} RecursionError raise events")
     rec.counters["max_shadow_depth"] = max(rec.counters.get("max_shadow_depth", 0), mon.peak)
     rec.seen("outcomes", outcome)
+    desc = {k: v for k, v in desc.items() if k != "_warnings"}
     for sig, detail in mon.problems:
         rec.violation(sig, feats, {"desc": desc, "doc": doc if len(str(doc)) < 6000 else None, "limit": mon.limit}, detail)
     if len(rec.samples) < 2 and nontrivial:
@@ -370,6 +423,15 @@ def run_shard(ctx: Ctx) -> None:
                     doc = chain_doc(kind, length, rerefs)
                     run_doc(ctx, mon, ldr, doc, {"chain": kind, "length": length, "rerefs": rerefs, "limit": limit},
                             True, ["deep_chain", f"chain_{kind}"])
+        # operations with inline schemas, one of which makes parsing raise (the loader skips it and carries on)
+        for faulty in FAULTY_NODES:
+            for position in ("request", "response", "parameter"):
+                for where, nops in ((0, 3), (1, 4)) + (((3, 45),) if position == "request" else ()):
+                    desc = {"kind": "operations", "faulty": faulty, "position": position, "where": where, "nops": nops, "limit": limit}
+                    run_doc(ctx, mon, ldr, ops_doc(faulty, position, where, nops), desc, True, ["operations_with_faulty_inline_schema"])
+                    ctx.rec.count("operation_documents")
+        run_doc(ctx, mon, ldr, ops_doc("required_true_on_property", "none", -1, 6),
+                {"kind": "operations", "faulty": None, "nops": 6, "limit": limit}, True, ["operations_inline_schemas"])
         for depth in sorted({limit + 1, 2 * limit + 5}):
             for via_array in (False, True):
                 run_doc(ctx, mon, ldr, nest_doc(min(depth, 320), via_array),
@@ -428,6 +490,8 @@ def replay(ctx: Ctx, file: dict) -> None:
     d = c["desc"]
     if c.get("doc"):
         doc = c["doc"]
+    elif d.get("kind") == "operations":
+        doc = ops_doc(d["faulty"] or "required_true_on_property", d.get("position", "none"), d.get("where", -1), d["nops"])
     elif "chain" in d:
         doc = chain_doc(d["chain"], d["length"], d["rerefs"])
     else:
